@@ -897,6 +897,13 @@ spin_window(victim *v, const char *when)
 		char key[160];
 		snprintf(key, sizeof(key), "C11/spin/%s/%s/%s", tnames[v->tran], v->vp->name, when);
 		vf_violation(key, "process used %.0f ms of CPU in a %.0f ms idle window %s (mutation %s)", (c1 - c0) * 1e3, wall * 1e3, when, v->cur_mut);
+		if (getenv("C11_SPIN_DUMP") != NULL) {
+			char cmd[256];
+			for (int i = 0; i < 5; i++) {
+				snprintf(cmd, sizeof(cmd), "/verif/tools/stacks.sh %d >&2; echo ---- >&2", (int) getpid());
+				if (system(cmd) != 0) break;
+			}
+		}
 	}
 	pump(v);
 }
@@ -2424,7 +2431,7 @@ main(int argc, char **argv)
 			if (!vf_want_case(idx)) continue;
 			vf_rng_seed(&r, vf_seed, (uint64_t) idx);
 			int           t   = only_tran >= 0 ? only_tran : pick_tran(&r);
-			const vproto *vp  = &vprotos[(idx + (long) vf_below(&r, NVPROTO) * (vf_chance(&r, 1, 4) ? 1 : 0) + vf_shard * 5) % NVPROTO];
+			const vproto *vp  = &vprotos[((uint64_t) idx + vf_mix64(vf_seed) % NVPROTO + vf_below(&r, NVPROTO) * (vf_chance(&r, 1, 4) ? 1u : 0u)) % NVPROTO];
 			size_t        rm  = recvmaxes[vf_below(&r, 3)];
 			int           ttl = (int[]){ 1, 2, 3, 8, 15 }[vf_below(&r, 5)];
 			if (getenv("C11_FORCE_PROTO")) {
@@ -2439,7 +2446,7 @@ main(int argc, char **argv)
 			if (dribble) vf_io_plan(VF_IO_FULL, 0, VF_IO_RANDOM, 1 + vf_below(&r, 12), vf_rand(&r));
 			for (int j = 0; j < nsess; j++) {
 				pick_plan(&V, &pl, &r);
-				run_session(&V, &pl, &r, vf_chance(&r, 1, 3), vf_chance(&r, 1, vf_tier ? 24 : 40));
+				run_session(&V, &pl, &r, vf_chance(&r, 1, 3), vf_chance(&r, 1, vf_tier ? 24 : 40) || getenv("C11_SPIN_ALL") != NULL);
 				vf_watchdog(180);
 				if (V.wedged) break;
 			}
